@@ -407,14 +407,16 @@ impl ClientEvent {
         event: &E,
         message: &mut Vec<u8>,
     ) -> Result<()> {
-        unsafe {
+        let result = unsafe {
             self.event_fns
                 .typed::<ClientSendCtx, ServerReceiveCtx, E, I>()
-                .serialize(ctx, event, message)?;
-        }
+                .serialize(ctx, event, message)
+        };
 
+        // Checked even if serialization failed to avoid leaking
+        // unmapped entities into the next event.
         if ctx.invalid_entities.is_empty() {
-            Ok(())
+            result
         } else {
             let msg = format!(
                 "unable to map entities `{:?}` for the server, \
